@@ -119,6 +119,14 @@ static size_t mask_count(struct mask m)
   VX_ASSERT(m.kind == MK_PROC, "environment model: count is used on the process mask");
   return g_proc_count;
 }
+/* threads::detail::mask_size(m): the CAPACITY of the mask (number of PUs of the machine, or 64 for the uint64_t mask type), never
+ * less than the number of bits set -- not used by the pinned decoders; modelled so that a count()/mask_size() mix-up is decided */
+static size_t mask_mask_size(struct mask m)
+{
+  size_t cap = nondet_size();
+  VX_ASSUME(cap >= g_proc_count); /* capacity >= population count */
+  return cap;
+}
 static size_t vx_hardware_concurrency(void) { return g_hw_conc; }
 
 /* ---- std::vector<mask_type>& affinities, std::vector<std::size_t>& num_pus : victim worker g_k ---- */
